@@ -16,6 +16,7 @@ import tempfile
 import threading
 import concurrent.futures as cf
 from . import common as C
+from .c18_cluster import bound_check
 
 OCAML = ["cluster"]
 GO = ["cluster"]
@@ -280,11 +281,26 @@ def runner_leg(run, args, stats, samples, timeout=1500):
         run.violation("theorem-instance:" + verdict["!modelprop"][1].split(" ")[-1],
                       {"detail": verdict.pop("!modelprop")[1], "theorem": "C16_live_servers_run"},
                       "an accepted model state contradicts a proved C16 predicate (extraction / driver fault)", True)
-    # a rejected trace is re-run alone (no parallel load) before it counts: the model assumes a ready
-    # server answers within the readiness deadline
+    # an inconclusive verdict (acceptor fuel) is retried alone with ten times the fuel before it counts
+    inconc = {n: traces[n] for n, (v, _) in verdict.items() if v == "INCONCLUSIVE"}
+    if inconc:
+        v2, s2, ok2 = accept_traces(inconc, fuel=200000)
+        if ok2:
+            verdict.update(v2)
+            summ["inconclusive"] = int(summ.get("inconclusive", 0)) - len(inconc) + int(s2.get("inconclusive", 0))
+            summ["accepted"] = int(summ.get("accepted", 0)) + int(s2.get("accepted", 0))
+    # A rejected trace is a real execution the model cannot produce, whatever a re-run does.  It is dropped only
+    # if the model accepts the RECORDED trace when it is replayed offline, alone (the first verdict was then an
+    # artefact of the driver run); the scenario is re-run twice alone only to tell the reader how reproducible
+    # it is.  (Runs in which the process stalled longer than the readiness deadline carry the harness' own
+    # TIMING marker and were discarded above - a named artefact, counted and bounded.)
     rejected = [n for n, (v, _) in verdict.items() if v in ("REJECT", "BADTRACE")]
-    confirmed = {}
+    confirmed, offline_ok = {}, set()
     for n in rejected[:40]:
+        v1, _, ok1 = accept_traces({n: traces[n]}, fuel=200000)
+        if ok1 and v1.get(n, ("", ""))[0] == "ACCEPT":
+            offline_ok.add(n)
+            continue
         again = 0
         for _ in range(2):
             with tempfile.NamedTemporaryFile("w", suffix=".txt", delete=False) as f:
@@ -339,14 +355,17 @@ def runner_leg(run, args, stats, samples, timeout=1500):
                 payload["colliding_pair"] = [col[0], col[0] + SFX]
             run.violation("runner:%s:%s" % (bad[0][0], h8(sc)), payload, "cluster runner: " + bad[0][1])
         elif v in ("REJECT", "BADTRACE", "MISSING"):
-            if confirmed.get(name, 2) >= 1:
-                run.violation("corr-runner:" + h8(sc), dict(payload, theorem="correspondence B (ClusterLTS acceptor)",
-                                                            reruns_rejected=confirmed.get(name)),
-                              "the runner produced a trace the protocol model cannot produce (%s)" % info, True)
+            if name in offline_ok:
+                stats["rejects_accepted_offline"] = stats.get("rejects_accepted_offline", 0) + 1
             else:
-                stats["flaky_rejects"] = stats.get("flaky_rejects", 0) + 1
-                stats.setdefault("flaky_samples", []).append(
-                    {"script": sc, "trace": " ".join(st), "acceptor": info})
+                rep = confirmed.get(name)
+                if rep == 0:
+                    stats["rejects_not_reproduced_but_reported"] = stats.get("rejects_not_reproduced_but_reported", 0) + 1
+                run.violation("corr-runner:" + h8(sc),
+                              dict(payload, theorem="correspondence B (ClusterGo/ClusterLTS acceptor)",
+                                   reproduced="%s/2" % ("?" if rep is None else rep)),
+                              "the runner produced a trace the protocol model cannot produce (%s); re-running the "
+                              "scenario alone reproduced it %s of 2 times" % (info, "?" if rep is None else rep), True)
         if len(samples) < 5 and v == "ACCEPT":
             samples.append({"script": sc, "trace": " ".join(st)})
 
@@ -419,6 +438,8 @@ def run(run):
                          "-jobs", str(min(C.NPROC, 12))], rstats, samples)
         done += chunk
     handle_planner_ops(run, mism)
+    bounds = bound_check(run, "", "C16 runner leg", n, rstats.get("traces", 0) - rstats.get("inconclusive", 0),
+                         rstats.get("timing_stalls_discarded", 0), rstats.get("inconclusive", 0))
     distinct = len(rstats.pop("distinct_traces", set()))
     cov = run.coverage
     cov.update({
@@ -436,10 +457,9 @@ def run(run):
             "n", "builds", "distinct_builds", "colliding", "multi", "notinmodel", "planfail", "planfail_known",
             "opmismatch", "parse", "hyg_multi", "fullset", "capped", "new", "actions", "commit", "setrt", "clrrt", "remove", "count")},
         "runner": rstats,
+        "runner_bounds": bounds,
         "f9_regression_witness": f9,
     })
-    if rstats.get("inconclusive", 0) * 100 > max(1, rstats.get("traces", 0)):
-        run.notes.append("more than 1% of the traces were inconclusive (acceptor fuel)")
     run.assumptions += [
         "child servers behave like the mocks: Run returns when its context is cancelled or Stop was called; Stop returns",
         "a ready server answers IsRunning()=true within the readiness deadline (40 ms in the harness, polled every 5 ms)",
